@@ -71,6 +71,30 @@ CHECKS["C13"] = dict(
     technique="Coq proof (induction along the radius, linearity + maximum principle) + certificate + exact closed-form oracle",
     design="4/C13")
 
+CHECKS["C01"] = dict(
+    text="Theorems about a Gallina model of the metallic life computation: envelope membership is antitone along every "
+         "damage ray, the closed-form crossing is exactly the membership boundary, a point's life is 0 / unbounded / the "
+         "crossing according to membership at 1 and 10^6 repetitions, and for any number of tubes and points the receiver "
+         "life is the minimum: every point inside below it, the arg-min point outside above it.  Tied to "
+         "TimeFractionInteractionDamage / StructuralMaterial by exact and toleranced correspondence (envelope booleans, "
+         "supplied per-point damages, synthetic histories with a rational stub material) and by membership probes on the "
+         "implementation with the shipped materials.",
+    note="Trusted: Coq kernel; brentq (compared with the closed form at 1e-6); multiprocess imap order.  The last-cycle "
+         "mode is proved only up to antitonicity of membership in the repetition count (C01_last_boundary_partial); its "
+         "model is tied by correspondence.  Shipped Larson-Miller / fatigue look-ups are covered by C20, not modelled here.",
+    technique="Coq proof (order/real-closed-field style algebra over Q, list minima) + correspondence by vm_compute",
+    design="4/C01")
+CHECKS["C09"] = dict(
+    text="Theorems: von Mises stress and equivalent strain range (as written in damage.py, incl. the engineering-shear "
+         "factors) are invariant under any orthogonal change of axes (trace invariants, Groebner-basis proofs checked by "
+         "the kernel), strain offsets cancel, minima are permutation invariant, the mean of a repeated day is the day's "
+         "mean, scaling damages by lam divides the crossing by lam, larger damages or an extra tube never lengthen the "
+         "life.  Tied by the damage-formula correspondence shared with C01 and by metamorphic pairs through determine_life.",
+    note="Trusted: as C01.  Monotonicity of damage in load needs monotone material laws (proved for shipped data in C20 on "
+         "their tabulated ranges); the oracle uses the stub material for that clause.",
+    technique="Coq proof (nsatz/ring over Q, list lemmas) + metamorphic testing of the implementation",
+    design="4/C09")
+
 NOT_YET = {}
 
 def main():
